@@ -42,16 +42,19 @@ type pgpAlt struct {
 	flags   int
 	created uint32
 	life    int64 // -1: no key-expiration pgpw_subpacket
+	pin     bool  // acceptable whatever its date (see Run/PgpCommon.v latest_alts)
 }
 
 type pgpIDRef struct {
-	name string
-	alts []pgpAlt
+	name     string
+	alts     []pgpAlt
+	optional bool // a revoked identity: may be left out of the description
 }
 
 type pgpSubRef struct {
-	key  *pkey
-	alts []pgpAlt
+	key      *pkey
+	alts     []pgpAlt
+	optional bool // a revoked subkey
 }
 
 type entBuilder struct {
@@ -90,7 +93,35 @@ func (b *entBuilder) keyPacket(k *pkey, sub bool, item int) {
 		}
 	}
 	off := b.packet(tag, body)
-	b.regions = append(b.regions, pgpRegion{kind: "key", item: item, isSub: sub, off: off, n: len(k.body())})
+	var hdrs []int
+	for _, h := range keyMPIHeaderOffsets(k.body()) {
+		hdrs = append(hdrs, off+h)
+	}
+	b.regions = append(b.regions, pgpRegion{kind: "key", item: item, isSub: sub, off: off, n: len(k.body()), mpiHdrs: hdrs})
+}
+
+// keyMPIHeaderOffsets: the offsets of the 2-octet MPI bit counts inside a v4 public key body.
+func keyMPIHeaderOffsets(body []byte) (out []int) {
+	if len(body) < 6 {
+		return
+	}
+	pos, n := 6, 0
+	switch body[5] {
+	case 1, 2, 3:
+		n = 2
+	case 17:
+		n = 4
+	case 16:
+		n = 3
+	case 18, 19, 22:
+		pos += 1 + int(body[6])
+		n = 1
+	}
+	for i := 0; i < n && pos+2 <= len(body); i++ {
+		out = append(out, pos)
+		pos += 2 + (int(body[pos])<<8|int(body[pos+1])+7)/8
+	}
+	return
 }
 
 func (b *entBuilder) uid(name string) int {
@@ -139,7 +170,7 @@ func (b *entBuilder) cert(i int, by *pkey, o sigOpts, counts bool) {
 		b.sigRegions(off, lay, len(body), i, false, "")
 	}
 	if counts {
-		b.ids[i].alts = []pgpAlt{altOf(o)} // the code keeps the last valid self-signature; they are written oldest first
+		b.ids[i].alts = append(b.ids[i].alts, altOf(o)) // every valid self-signature; the spec checker takes the most recent one
 	}
 }
 
@@ -175,14 +206,18 @@ func (b *entBuilder) binding(i int, o sigOpts, cross bool, crossUnhashed bool, c
 		}
 	}
 	if counts {
-		b.subs[i].alts = []pgpAlt{altOf(o)}
+		b.subs[i].alts = append(b.subs[i].alts, altOf(o))
 	}
 }
 
 func sxAlts(alts []pgpAlt) Sx {
 	l := SL{}
 	for _, a := range alts {
-		l = append(l, SL{I(a.flags), I(int(a.created)), sInt(a.life)})
+		e := SL{I(a.flags), I(int(a.created)), sInt(a.life)}
+		if a.pin {
+			e = append(e, I(1))
+		}
+		l = append(l, e)
 	}
 	return l
 }
@@ -196,12 +231,20 @@ func (b *entBuilder) ref(kind int) Sx {
 	ids := SL{}
 	for _, id := range b.ids {
 		if len(id.alts) > 0 {
-			ids = append(ids, SL{S(id.name), sxAlts(id.alts)})
+			e := SL{S(id.name), sxAlts(id.alts)}
+			if id.optional {
+				e = append(e, I(1))
+			}
+			ids = append(ids, e)
 		}
 	}
 	subs := SL{}
 	for _, s := range b.subs {
-		subs = append(subs, append(keyRef(s.key), sxAlts(s.alts)))
+		e := append(keyRef(s.key), sxAlts(s.alts))
+		if s.optional {
+			e = append(e, I(1))
+		}
+		subs = append(subs, e)
 	}
 	return SL{I(kind), keyRef(b.primary), ids, subs}
 }
@@ -305,7 +348,8 @@ func subkeyAlgos() []algoChoice {
 		{"ecdsa-p256", func(t uint32, r *Rng) *pkey { return newECKey(oidP256, 19, t, r, nil) }},
 		{"eddsa", func(t uint32, r *Rng) *pkey { return newEdDSAKey(t, r) }},
 		{"dsa-1024", func(t uint32, r *Rng) *pkey { return newDSAKey(0, t, r) }},
-		{"rsa-small", func(t uint32, r *Rng) *pkey { return newRSAKey(1+r.Intn(8), 1, t) }},
+		// 1026..1031 bits: some single-bit changes of the modulus' bit count keep its octet count
+		{"rsa-small", func(t uint32, r *Rng) *pkey { return newRSAKey(2+r.Intn(6), 1, t) }},
 	}
 }
 
@@ -875,8 +919,7 @@ func genC12(c *Ctx) {
 		o1, o2 := selfSigOpts(primary, 8, 1600000000, 0x23, u32p(86400*3650)), selfSigOpts(primary, 8, 1500000000, 0x03, u32p(86400))
 		b.cert(id, nil, o1, true)
 		b.cert(id, nil, o2, true)
-		b.ids[id].alts = []pgpAlt{altOf(o1), altOf(o2)} // either is acceptable
-		pgpInspect(c, "C12", "two-self-signatures-reversed", false, b.stream, b.ref(1), plain)
+		pgpInspect(c, "C12", "two-self-signatures-reversed", false, b.stream, b.ref(1), plain) // the most recent one counts (F42)
 		b = newEnt(primary, false, r, func() int { return 3 })
 		id = b.uid("same user ID")
 		b.cert(id, nil, o2, true)
@@ -892,6 +935,11 @@ func genC12(c *Ctx) {
 		b.cert(id, nil, o1, true)
 		pgpInspect(c, "C12", "direct-key-signature", false, b.stream, b.ref(1), plain)
 	}
+	// ---- streams beyond the plain transferable key: packets to skip, partial / indeterminate lengths,
+	//      trailing octets, user attributes, v3 material, message packets, unknown subpackets ----
+	pgpBeyond(c, "C12")
+	// ---- several self-signatures per identity / subkey, revoked identities and subkeys, direct-key signatures ----
+	pgpSelfSigs(c, "C12")
 	// ---- malformed stream derived from valid keys (no reference: the model must agree, nothing may panic) ----
 	pgpMalformed(c)
 	// ---- keys produced by GnuPG, GnuPG's own listing as the reference ----
@@ -1363,6 +1411,8 @@ func genC11(c *Ctx) {
 	plain := armorStyle{}
 	// corpus: identities whose user ID has white space at the ends, is empty, very long or not UTF-8
 	oddUserIDKeys(c, "C11")
+	pgpBeyond(c, "C11")
+	pgpSelfSigs(c, "C11")
 	keys := c11Keys(c)
 	sample := 2000
 	for ki, k := range keys {
@@ -1409,7 +1459,7 @@ func genC11(c *Ctx) {
 		}
 		if len(sampled) > 0 {
 			r := NewRng(c.R.U64() + uint64(ki))
-			// always the bit counts of every MPI in signature values, then a seeded sample
+			// always the bit counts of every MPI in key bodies and signature values, then a seeded sample
 			picked := map[int]bool{}
 			var order []int
 			base := 0
@@ -1606,5 +1656,689 @@ func c11Structural(c *Ctx) {
 		b.binding(0, bindingOpts(p, 8, 1600000050, 0x04, nil), false, false, nil, false)           // older: ignored
 		b.binding(0, bindingOpts(p, 8, 1600000200, 0x08, u32p(86400*30)), false, false, nil, true) // newer: replaces
 		pgpInspect(c, "C11", "structural:rebinding-by-creation-time", false, b.stream, SL{I(0), b.ref(1)}, plain)
+	}
+}
+
+// ---------- streams beyond the plain transferable key (C11 and C12) ----------
+
+// pgpPartialPacket frames body with partial body lengths (RFC 4880 4.2.2.4): a first part of
+// 2^pow octets, further parts of 2^pow2 octets, the last part with a definite length.
+func pgpPartialPacket(tag int, body []byte, pow, pow2 int) []byte {
+	out := []byte{byte(0xC0 | tag)}
+	n := 1 << pow
+	for len(body) >= n {
+		out = append(out, byte(224+pow))
+		out = append(out, body[:n]...)
+		body = body[n:]
+		pow = pow2
+		n = 1 << pow
+	}
+	switch {
+	case len(body) < 192:
+		out = append(out, byte(len(body)))
+	default:
+		out = append(out, byte((len(body)-192)>>8+192), byte(len(body)-192))
+	}
+	return append(out, body...)
+}
+
+// pgpIndeterminatePacket: old format, length type 3 - the packet extends to the end of the stream.
+func pgpIndeterminatePacket(tag int, body []byte) []byte {
+	return cat([]byte{byte(0x80 | tag<<2 | 3)}, body)
+}
+
+// reframe rebuilds a stream of definite-length packets, packet i written by f (nil: unchanged).
+func reframe(stream []byte, f func(i int, p rawPacket) []byte) []byte {
+	pk, _ := splitStream(stream)
+	var out []byte
+	for i, p := range pk {
+		if b := f(i, p); b != nil {
+			out = append(out, b...)
+		} else {
+			out = append(out, stream[p.hdrOff:p.end]...)
+		}
+	}
+	return out
+}
+
+// insertAt puts ins in front of packet i (i == number of packets: at the end).
+func insertAt(stream []byte, i int, ins []byte) []byte {
+	pk, _ := splitStream(stream)
+	at := len(stream)
+	if i < len(pk) {
+		at = pk[i].hdrOff
+	}
+	return cat(stream[:at], ins, stream[at:])
+}
+
+// a user attribute packet body (RFC 4880 5.12): one image subpacket with the 16-octet header
+func userAttributeBody(r *Rng, n int) []byte {
+	img := cat([]byte{0x10, 0x00, 0x01, 0x01}, make([]byte, 12), []byte{0xff, 0xd8, 0xff, 0xe0}, r.Bytes(n))
+	return pgpw_subpacket(1, img, false)
+}
+
+// a syntactically well-formed version-3 signature packet body (RFC 4880 5.2.2)
+func v3SigBody(r *Rng, typ byte, dsa bool) []byte {
+	b := cat([]byte{3, 5, typ}, u32(1000000000), r.Bytes(8))
+	if dsa {
+		return cat(b, []byte{17, 2}, r.Bytes(2), mpiOf(r.Bytes(20)), mpiOf(r.Bytes(20)))
+	}
+	return cat(b, []byte{1, 2}, r.Bytes(2), mpiOf(r.Bytes(128)))
+}
+
+// a well-formed version-3 RSA public key packet body (RFC 4880 5.5.2)
+func v3KeyBody(r *Rng) []byte {
+	n := r.Bytes(128)
+	n[0] |= 0x80
+	n[127] |= 1
+	return cat([]byte{3}, u32(900000000), u16(0), []byte{1}, mpiOf(n), mpiOf([]byte{1, 0, 1}))
+}
+
+type beyondExpect int
+
+const (
+	expStrict   beyondExpect = iota // the description is exactly the reference
+	expTolerant                     // the reference, or the key is rejected
+	expFree                         // no reference: no panic, model and implementation agree
+)
+
+func pgpBeyond(c *Ctx, prop string) {
+	plain := armorStyle{}
+	emit := func(tag string, b *entBuilder, stream []byte, e beyondExpect) {
+		var extra Sx
+		switch {
+		case e == expFree && prop == "C11":
+			extra = SL{I(9)}
+		case e == expFree:
+			extra = SL{I(0)}
+		case prop == "C11":
+			extra = SL{I(0), b.ref(map[beyondExpect]int{expStrict: 1, expTolerant: 4}[e])}
+		default:
+			extra = b.ref(map[beyondExpect]int{expStrict: 1, expTolerant: 4}[e])
+		}
+		pgpInspect(c, prop, "beyond-"+tag, b.secret, stream, extra, plain)
+	}
+	vanish := func(tag string, b *entBuilder, stream []byte, names []string, subs []*pkey) {
+		if prop != "C11" {
+			pgpInspect(c, prop, "beyond-"+tag, b.secret, stream, SL{I(0)}, plain)
+			return
+		}
+		ns, fs := SL{}, SL{}
+		for _, n := range names {
+			ns = append(ns, S(n))
+		}
+		for _, s := range subs {
+			fs = append(fs, SB(s.fpr()))
+		}
+		pgpInspect(c, prop, "beyond-"+tag, b.secret, stream, SL{I(1), ns, fs, Bool(false), S(tag), I(0)}, plain)
+	}
+	mk := func(seed uint64, pi int, subIdx []int, secret bool, nIDs int, format int) *entBuilder {
+		r := NewRng(seed)
+		pa, sa := primaryAlgos(), subkeyAlgos()
+		var subs []algoChoice
+		for _, j := range subIdx {
+			subs = append(subs, sa[j])
+		}
+		primary := pa[pi].mk(1500000000+uint32(seed%1000), r)
+		b := newEnt(primary, secret, r, func() int { return format })
+		for i := 0; i < nIDs; i++ {
+			id := b.uid([]string{"Alice Example <alice@example.org>", "bob", "Carol (work) <carol@example.com>"}[i%3])
+			o := selfSigOpts(primary, 8, 1500000100+uint32(i), []byte{3, 0x23, 1}[i%3], []*uint32{nil, u32p(86400 * 365), u32p(0)}[i%3])
+			o.prefs, o.issuerFpr = false, nil
+			b.cert(id, nil, o, true)
+		}
+		for j, sc := range subs {
+			sk := sc.mk(1500000200+uint32(j), r)
+			flags := byte(0x0c)
+			if sk.algo == 22 || sk.algo == 19 || sk.algo == 17 {
+				flags = 0x02
+			}
+			o := bindingOpts(primary, 8, 1500000300+uint32(j), flags, []*uint32{nil, u32p(86400 * 30)}[j%2])
+			o.issuerFpr = nil
+			b.subkey(sk, o, flags&2 != 0, j%2 == 0, nil)
+		}
+		return b
+	}
+
+	// ---- corpus F40: the same signature packet with two trailing octets (the header of a private-use
+	//      packet that would swallow the subkey) behind user IDs of three lengths: packet.Read left
+	//      the octets in the stream or not, depending on the position modulo the base64 quantum ----
+	for pad := 0; pad < 3; pad++ {
+		r := NewRng(0xF40)
+		primary := newEdDSAKey(1600000000, r)
+		b := newEnt(primary, false, r, func() int { return 0 })
+		id := b.uid("trailing <t@example.org>" + strings.Repeat("x", pad))
+		o := selfSigOpts(primary, 8, 1600000000, 3, nil)
+		b.cert(id, nil, o, true)
+		sk := newCv25519Key(1600000000, r, kdfSHA256AES128)
+		b.subkey(sk, bindingOpts(primary, 8, 1600000000, 0x0c, nil), false, false, nil)
+		pk, _ := splitStream(b.stream)
+		tail := len(b.stream) - pk[3].hdrOff
+		m := reframe(b.stream, func(i int, p rawPacket) []byte {
+			if i == 2 {
+				return pgpPacket(2, cat(p.body, []byte{0xFC, byte(tail)}), 0)
+			}
+			return nil
+		})
+		emit("corpus-F40-trailing-octets-in-signature", b, m, expTolerant)
+	}
+
+	bases := []*entBuilder{
+		mk(0xB001+c.R.U64()%7, 0, []int{0, 8}, false, 2, 0),
+		mk(0xB002+c.R.U64()%7, 1, []int{1}, false, 1, 3),
+		mk(0xB003+c.R.U64()%7, 8, []int{4}, false, 2, 3),
+		mk(0xB004+c.R.U64()%7, 0, []int{0}, true, 1, 0),
+		mk(0xB005+c.R.U64()%7, 4, []int{6}, false, 1, 1),
+	}
+	r := NewRng(c.R.U64())
+
+	for bi, b := range bases {
+		tag := func(s string) string { return s + ":" + strconv.Itoa(bi) }
+		pk, _ := splitStream(b.stream)
+		np := len(pk)
+		// ---- A: packets a key reader must skip (RFC 4880 5.8 marker, 5.10 trust, private / unassigned types)
+		//      at every position, in every header format incl. partial lengths ----
+		for i := 1; i <= np; i++ {
+			var ins []byte
+			switch i % 5 {
+			case 0:
+				ins = pgpPacket(10, []byte("PGP"), []int{0, 3}[i%2])
+			case 1:
+				ins = pgpPacket(12, r.Bytes(1+r.Intn(4)), []int{0, 3, 4}[i%3])
+			case 2:
+				ins = pgpPartialPacket(60+i%4, r.Bytes(700), 9, 6)
+			case 3:
+				ins = cat(pgpPacket(10, []byte("PGP"), 3), pgpPacket(12, []byte{0x78, 0x00}, 3), pgpPacket(15, nil, 0))
+			default:
+				ins = pgpPartialPacket(12, r.Bytes(5), 1, 0)
+			}
+			emit(tag("skipped-packets"), b, insertAt(b.stream, i, ins), expStrict)
+		}
+		emit(tag("marker-first"), b, cat(pgpPacket(10, []byte("PGP"), 3), b.stream), expStrict)
+		emit(tag("indeterminate-unknown-packet-last"), b, cat(b.stream, pgpIndeterminatePacket(12, r.Bytes(40))), expStrict)
+		// a skipped packet whose body ends early: the key in front of it is complete
+		emit(tag("truncated-trust-packet-last"), b, cat(b.stream, pgpPacket(12, r.Bytes(40), 3)[:20]), expTolerant)
+
+		// ---- B: the packets of the key itself with partial body lengths and an indeterminate length
+		//      (RFC 4880 4.2.2.4 allows partial lengths for data packets only: a reader may reject) ----
+		for _, pows := range [][2]int{{0, 0}, {1, 3}, {5, 2}, {7, 7}} {
+			for only := -1; only < np; only += 2 {
+				m := reframe(b.stream, func(i int, p rawPacket) []byte {
+					if only >= 0 && i != only {
+						return nil
+					}
+					return pgpPartialPacket(p.tag, p.body, pows[0], pows[1])
+				})
+				emit(tag("partial-lengths"), b, m, expTolerant)
+			}
+		}
+		emit(tag("last-packet-indeterminate"), b, reframe(b.stream, func(i int, p rawPacket) []byte {
+			if i == np-1 {
+				return pgpIndeterminatePacket(p.tag, p.body)
+			}
+			return nil
+		}), expTolerant)
+		// an indeterminate length in the middle swallows the rest of the key
+		for i := 1; i < np-1; i++ {
+			emit(tag("indeterminate-in-the-middle"), b, reframe(b.stream, func(j int, p rawPacket) []byte {
+				if j == i {
+					return pgpIndeterminatePacket(p.tag, p.body)
+				}
+				return nil
+			}), expFree)
+		}
+		// partial lengths that end early or whose continuation length is missing
+		for i := 0; i < np; i++ {
+			pp := pgpPartialPacket(pk[i].tag, pk[i].body, 4, 3)
+			emit(tag("partial-truncated"), b, cat(b.stream[:pk[i].hdrOff], pp[:len(pp)-1-r.Intn(len(pp)/2)]), expFree)
+			cut := 18
+			if cut > len(pp) {
+				cut = len(pp)
+			}
+			emit(tag("partial-then-garbage"), b, cat(b.stream[:pk[i].hdrOff], pp[:cut], []byte{0xff, 0x00}, b.stream[pk[i].end:]), expFree)
+		}
+
+		// ---- C: key and signature packets that are longer than their content ----
+		for i := 0; i < np; i++ {
+			if pk[i].tag == 13 {
+				continue
+			}
+			for _, extra := range [][]byte{{0}, r.Bytes(1 + r.Intn(6)), {0xFC, byte(len(b.stream) - pk[i].end)}, cat(pgpPacket(13, []byte("smuggled"), 3), r.Bytes(3))} {
+				if len(extra) == 2 && extra[0] == 0xFC && len(b.stream)-pk[i].end > 191 {
+					extra = cat([]byte{0xFC, 0xFF}, u32(uint32(len(b.stream)-pk[i].end)))
+				}
+				if b.secret && (pk[i].tag == 5 || pk[i].tag == 7) {
+					continue // the secret part takes everything up to the end of the packet
+				}
+				m := reframe(b.stream, func(j int, p rawPacket) []byte {
+					if j == i {
+						return pgpPacket(p.tag, cat(p.body, extra), []int{0, 3, 4}[(i+len(extra))%3])
+					}
+					return nil
+				})
+				emit(tag("trailing-octets-in-packet"), b, m, expTolerant)
+			}
+		}
+
+		// ---- D: user attributes, version-3 material, packets of OpenPGP messages inside the key block ----
+		uat := userAttributeBody(r, 40+r.Intn(200))
+		{
+			// behind the last user ID's signatures, with its own certification (hash: 0xD1, 4-octet length, body)
+			prefix := cat(b.primary.hashInput(), []byte{0xd1}, u32(uint32(len(uat))), uat)
+			o := selfSigOpts(b.primary, 8, 1500000500, 3, nil)
+			o.prefs, o.issuerFpr = false, nil
+			sig, _ := makeSig(b.primary, prefix, o, r)
+			at := 1 + 2*len(b.ids)
+			emit(tag("user-attribute-with-certification"), b, insertAt(b.stream, at, cat(pgpPacket(17, uat, 3), pgpPacket(2, sig, 3))), expStrict)
+			emit(tag("user-attribute-partial-length"), b, insertAt(b.stream, at, cat(pgpPartialPacket(17, uat, 4, 5), pgpPacket(2, sig, 0))), expStrict)
+			emit(tag("user-attribute-last"), b, cat(b.stream, pgpPacket(17, uat, 4), pgpPacket(2, sig, 0)), expStrict)
+			emit(tag("user-attribute-empty"), b, insertAt(b.stream, at, pgpPacket(17, nil, 3)), expTolerant)
+			emit(tag("user-attribute-malformed"), b, insertAt(b.stream, at, pgpPacket(17, []byte{5, 1, 0}, 3)), expFree)
+			emit(tag("user-attribute-zero-length-subpacket"), b, insertAt(b.stream, at, pgpPacket(17, []byte{0}, 3)), expFree)
+			// a user attribute between a user ID and its certification takes the certification away from the user ID
+			vanish(tag("user-attribute-between-uid-and-certification"), b, insertAt(b.stream, 2, pgpPacket(17, uat, 3)), []string{b.ids[0].name}, nil)
+		}
+		{
+			v3s := pgpPacket(2, v3SigBody(r, 0x10, bi%2 == 0), []int{0, 3}[bi%2])
+			emit(tag("v3-certification-behind-self-signature"), b, insertAt(b.stream, 3, v3s), expStrict)
+			emit(tag("v3-certification-last"), b, cat(b.stream, v3s), expStrict)
+			emit(tag("v3-certification-before-self-signature"), b, insertAt(b.stream, 2, v3s), expFree)
+			for _, bad := range [][]byte{{3}, {3, 4}, {2, 5, 0x10}, {1, 5}, {0}, cat([]byte{3, 5, 0x10}, u32(1), make([]byte, 8), []byte{16, 2, 0, 0, 0, 1, 1}), cat([]byte{3, 5, 0x10}, u32(1), make([]byte, 8), []byte{1, 99, 0, 0, 0, 1, 1})} {
+				emit(tag("v3-signature-malformed"), b, insertAt(b.stream, 3, pgpPacket(2, bad, 3)), expFree)
+			}
+			v3k := v3KeyBody(r)
+			emit(tag("v3-subkey-packet"), b, cat(b.stream, pgpPacket(14, v3k, 0)), expTolerant)
+			emit(tag("v3-key-first"), b, cat(pgpPacket(6, v3k, 0), b.stream), expFree)
+			emit(tag("v3-key-short-modulus"), b, cat(b.stream, pgpPacket(14, cat([]byte{3}, u32(1), u16(0), []byte{1}, mpiOf([]byte{1, 2, 3}), mpiOf([]byte{3})), 0)), expFree)
+			emit(tag("v3-key-version-2"), b, cat(b.stream, pgpPacket(6, cat([]byte{2}, v3k[1:]), 0)), expFree)
+			emit(tag("v3-key-dsa"), b, cat(b.stream, pgpPacket(14, cat(v3k[:7], []byte{17}, v3k[8:]), 0)), expFree)
+		}
+		{
+			enc := cat([]byte{3}, r.Bytes(8), []byte{1}, mpiOf(r.Bytes(128)))
+			ske := cat([]byte{4, 7, 3, 8}, r.Bytes(8), []byte{0x60})
+			ops := cat([]byte{3, 0, 8, 1}, r.Bytes(8), []byte{1})
+			for i, m := range [][]byte{pgpPacket(1, enc, 3), pgpPacket(3, ske, 3), pgpPacket(4, ops, 0), pgpPacket(3, cat(ske, r.Bytes(32)), 3), pgpPacket(1, cat([]byte{3}, r.Bytes(8), []byte{16}, mpiOf(r.Bytes(8)), mpiOf(r.Bytes(8)), r.Bytes(5)), 3)} {
+				emit(tag("message-packet-behind-the-key"), b, cat(b.stream, m), expTolerant)
+				emit(tag("message-packet-inside-the-key"), b, insertAt(b.stream, 3, m), expTolerant)
+				_ = i
+			}
+			for _, m := range [][]byte{
+				pgpPacket(1, cat([]byte{2}, enc[1:]), 3), pgpPacket(1, enc[:12], 3), pgpPacket(1, enc[:9], 3),
+				pgpPacket(3, []byte{4, 7}, 3), pgpPacket(3, []byte{4, 7, 3}, 3), pgpPacket(3, []byte{4, 7, 3, 8}, 3), pgpPacket(3, []byte{4, 7, 1, 8}, 3), pgpPacket(3, []byte{4, 7, 0, 8}, 3),
+				pgpPacket(3, []byte{4, 7, 3, 8, 1, 2, 3}, 3), pgpPacket(3, []byte{4, 1, 3, 8}, 3), pgpPacket(3, []byte{5, 7, 3, 8}, 3), pgpPacket(3, []byte{4, 7, 2, 8}, 3), pgpPacket(3, []byte{4, 7, 3, 99}, 3),
+				pgpPacket(3, cat(ske, r.Bytes(64)), 3), pgpPacket(3, cat(ske, r.Bytes(63)), 3), pgpPacket(3, ske, 3)[:8],
+				pgpPacket(4, ops[:12], 0), pgpPacket(4, cat([]byte{4}, ops[1:]), 0), pgpPacket(4, cat([]byte{3, 0, 99}, ops[3:]), 0), pgpPacket(4, cat(ops, r.Bytes(3)), 0),
+			} {
+				emit(tag("message-packet-odd"), b, insertAt(b.stream, 3, m), expFree)
+			}
+			// packets whose body is handed out as a stream: the reader goes on INSIDE their body
+			inner := cat(pgpPacket(13, []byte("inside a data packet"), 3), pgpPacket(12, []byte{1}, 3))
+			lit := cat([]byte{'b', 4}, []byte("name"), u32(0), inner)
+			for _, m := range [][]byte{
+				pgpPacket(11, lit, 3), pgpPartialPacket(11, lit, 1, 2), pgpPartialPacket(11, lit, 0, 0), pgpPacket(11, lit[:8], 3), pgpPacket(11, []byte{'t', 0, 0, 0, 0, 0}, 0), pgpPacket(11, []byte{'t'}, 0),
+				pgpPacket(8, cat([]byte{1}, inner), 3), pgpPacket(8, cat([]byte{3}, inner), 0), pgpPacket(8, cat([]byte{0}, inner), 3), pgpPacket(8, nil, 3), pgpPacket(8, []byte{2, 0x78}, 3), pgpPacket(8, cat([]byte{2, 0x79, 0x9c}, inner), 3),
+				pgpPacket(9, inner, 3), pgpPacket(9, nil, 0), pgpPacket(18, cat([]byte{1}, inner), 3), pgpPacket(18, cat([]byte{2}, inner), 3), pgpPacket(18, nil, 3),
+				pgpPartialPacket(8, cat([]byte{1}, inner), 0, 1), pgpPartialPacket(18, cat([]byte{1}, inner), 0, 0),
+			} {
+				emit(tag("data-packet"), b, cat(b.stream, m), expFree)
+				emit(tag("data-packet-inside"), b, insertAt(b.stream, 3, m), expFree)
+			}
+			emit(tag("data-packet-indeterminate"), b, cat(b.stream, pgpIndeterminatePacket(11, lit)), expFree)
+			// a compressed packet with a well-formed zlib header: outside the modelled domain
+			emit(tag("zlib-compressed-packet"), b, cat(b.stream, pgpPacket(8, cat([]byte{2, 0x78, 0x9c}, r.Bytes(30)), 3)), expFree)
+		}
+		// the S2K specifier of a secret subkey or of a passphrase packet ending with the packet: io.EOF
+		if b.secret {
+			for i := 1; i < np; i++ {
+				if pk[i].tag != 7 {
+					continue
+				}
+				pub := b.subs[0].key.body()
+				for _, tail := range [][]byte{{254, 7}, {255, 9}, {254, 7, 3, 8}, {254, 7, 1, 2}, {254, 7, 3}, {254}, {254, 7, 0, 8}, {254, 7, 3, 8, 1, 2, 3, 4, 5, 6, 7, 8, 9}, {253}, nil} {
+					m := reframe(b.stream, func(j int, p rawPacket) []byte {
+						if j == i {
+							return pgpPacket(7, cat(pub, tail), 3)
+						}
+						return nil
+					})
+					emit(tag("secret-subkey-ends-in-s2k"), b, m, expFree)
+				}
+			}
+		}
+	}
+
+	// ---- E: signature subpackets the reader does not know (RFC 4880 5.2.3.1: critical bit) ----
+	for si, sub := range []struct {
+		tag      string
+		sp       []byte
+		unhashed bool
+		critical bool
+	}{
+		{"unknown-critical-hashed", pgpw_subpacket(100|0x80, []byte{1, 2, 3}, false), false, true},
+		{"unknown-critical-unhashed", pgpw_subpacket(101|0x80, []byte{1}, false), true, true},
+		{"unknown-critical-hashed-5-octet-length", pgpw_subpacket(40|0x80, []byte{9}, true), false, true},
+		{"notation-critical", pgpw_subpacket(20|0x80, cat([]byte{0x80, 0, 0, 0}, u16(3), u16(1), []byte("a@bx")), false), false, true},
+		{"unknown-hashed", pgpw_subpacket(100, []byte{1, 2, 3}, false), false, false},
+		{"unknown-unhashed", pgpw_subpacket(101, nil, false), true, false},
+		{"notation", pgpw_subpacket(20, cat([]byte{0x80, 0, 0, 0}, u16(3), u16(1), []byte("a@bx")), false), false, false},
+		{"known-critical", cat(pgpw_subpacket(25|0x80, []byte{1}, false), pgpw_subpacket(3|0x80, u32(0), false), pgpw_subpacket(11|0x80, []byte{9, 7}, false)), false, false},
+		{"features-policy-keyserver", cat(pgpw_subpacket(30|0x80, []byte{1}, false), pgpw_subpacket(26, []byte("https://example.org/policy"), false), pgpw_subpacket(23, []byte{0x80}, false), pgpw_subpacket(24, []byte("hkps://keys.example.org"), false)), false, false},
+	} {
+		for ki, mkp := range []func(r *Rng) *pkey{
+			func(r *Rng) *pkey { return newEdDSAKey(1600000000, r) },
+			func(r *Rng) *pkey { return newRSAKey(0, 1, 1600000000) },
+		} {
+			r := NewRng(uint64(0xE000 + si*2 + ki))
+			p := mkp(r)
+			// on the self-signature of the second identity
+			b := newEnt(p, false, r, func() int { return 3 * ki })
+			id := b.uid("good <good@example.org>")
+			b.cert(id, nil, selfSigOpts(p, 8, 1600000000, 3, nil), true)
+			id = b.uid("subpacket <sp@example.org>")
+			o := selfSigOpts(p, 8, 1600000000, 0x23, u32p(86400))
+			if sub.unhashed {
+				o.extraUnhashed = [][]byte{sub.sp}
+			} else {
+				o.extraHashed = [][]byte{sub.sp}
+			}
+			b.cert(id, nil, o, !sub.critical)
+			sk := newCv25519Key(1600000000, r, kdfSHA256AES128)
+			b.subkey(sk, bindingOpts(p, 8, 1600000000, 0x0c, nil), false, false, nil)
+			if sub.critical {
+				vanish("subpacket-on-certification:"+sub.tag, b, b.stream, []string{"subpacket <sp@example.org>"}, nil)
+			} else {
+				emit("subpacket-on-certification:"+sub.tag, b, b.stream, expStrict)
+			}
+			// on the binding signature of the subkey
+			b = newEnt(p, false, r, func() int { return 3 * ki })
+			id = b.uid("good <good@example.org>")
+			b.cert(id, nil, selfSigOpts(p, 8, 1600000000, 3, nil), true)
+			sk = newCv25519Key(1600000000, r, kdfSHA256AES128)
+			bo := bindingOpts(p, 8, 1600000000, 0x0c, u32p(86400*7))
+			if sub.unhashed {
+				bo.extraUnhashed = [][]byte{sub.sp}
+			} else {
+				bo.extraHashed = [][]byte{sub.sp}
+			}
+			if sub.critical {
+				b.subs = append(b.subs, pgpSubRef{key: sk})
+				b.keyPacket(sk, true, 0)
+				b.binding(0, bo, false, false, nil, false)
+				vanish("subpacket-on-binding:"+sub.tag, b, b.stream, nil, []*pkey{sk})
+			} else {
+				b.subkey(sk, bo, false, false, nil)
+				emit("subpacket-on-binding:"+sub.tag, b, b.stream, expStrict)
+			}
+		}
+	}
+}
+
+// ---------- several self-signatures, revocations, direct-key signatures (C12 and C11) ----------
+
+// RFC 4880 5.2.3.3: "An implementation that encounters multiple self-signatures on the same object
+// may resolve the ambiguity in any way it sees fit, but it is RECOMMENDED that priority be given
+// to the most recent self-signature": every valid self-signature is an acceptable source of the
+// displayed usage / dates, but all three attributes must come from ONE of them.
+// Revocation signatures (0x28, 0x30) are not self-signatures in the sense of 5.2.3.3: they carry
+// neither key flags nor a key expiration time; a revoked identity / subkey may be left out, and
+// when it is listed its usage and expiry are those of a certification / binding signature.
+func pgpSelfSigs(c *Ctx, prop string) {
+	plain := armorStyle{}
+	emit := func(tag string, b *entBuilder, kind int) {
+		var extra Sx = b.ref(kind)
+		if prop == "C11" {
+			extra = SL{I(0), b.ref(kind)}
+		}
+		pgpInspect(c, prop, "selfsigs-"+tag, b.secret, b.stream, extra, plain)
+	}
+	reason := func(code byte, text string) [][]byte {
+		return [][]byte{pgpw_subpacket(29, cat([]byte{code}, []byte(text)), false)}
+	}
+	perms3 := [][3]int{{0, 1, 2}, {0, 2, 1}, {1, 0, 2}, {1, 2, 0}, {2, 0, 1}, {2, 1, 0}}
+	for pi, mkp := range []func(r *Rng) *pkey{
+		func(r *Rng) *pkey { return newEdDSAKey(1500000000, r) },
+		func(r *Rng) *pkey { return newECKey(oidP256, 19, 1500000000, r, nil) },
+		func(r *Rng) *pkey { return newRSAKey(0, 1, 1500000000) },
+	} {
+		r := NewRng(c.R.U64())
+		p := mkp(r)
+		tag := func(s string) string { return s + ":" + strconv.Itoa(pi) }
+		newB := func() *entBuilder { return newEnt(p, false, r, func() int { return []int{0, 3, 1}[pi] }) }
+		lean := func(o sigOpts) sigOpts { o.prefs, o.issuerFpr = false, nil; return o }
+		good := func(b *entBuilder) {
+			id := b.uid("good <good@example.org>")
+			b.cert(id, nil, lean(selfSigOpts(p, 8, 1500000000, 3, nil)), true)
+		}
+		cv := func() *pkey { return newCv25519Key(1500000500, r, kdfSHA256AES128) }
+
+		// 1. three self-signatures on one identity, every order; equal creation times
+		three := []sigOpts{
+			lean(selfSigOpts(p, 8, 1500000000, 0x03, u32p(86400))),
+			lean(selfSigOpts(p, 8, 1550000000, 0x23, u32p(86400*3650))),
+			lean(selfSigOpts(p, 10, 1600000000, 0x01, nil)),
+		}
+		for _, pm := range perms3 {
+			if pi > 0 && pm != perms3[pi] && pm != perms3[5-pi] {
+				continue
+			}
+			b := newB()
+			id := b.uid("three self-signatures")
+			var alts []pgpAlt
+			for _, k := range pm {
+				b.cert(id, nil, three[k], true)
+				alts = append(alts, altOf(three[k]))
+			}
+			b.ids[id].alts = alts
+			b.subkey(cv(), bindingOpts(p, 8, 1500000600, 0x0c, nil), false, false, nil)
+			emit(tag("three-self-signatures"), b, 1)
+		}
+		{
+			b := newB()
+			id := b.uid("same creation time")
+			o1, o2 := lean(selfSigOpts(p, 8, 1500000000, 0x03, u32p(86400))), lean(selfSigOpts(p, 8, 1500000000, 0x21, nil))
+			b.cert(id, nil, o1, true)
+			b.cert(id, nil, o2, true)
+			b.ids[id].alts = []pgpAlt{altOf(o1), altOf(o2)}
+			emit(tag("self-signatures-same-time"), b, 1)
+			// an expired self-signature (signature expiration time, 5.2.3.10) beside a current one
+			b = newB()
+			id = b.uid("expired self-signature")
+			o1 = lean(selfSigOpts(p, 8, 1500000000, 0x03, u32p(86400*30)))
+			o1.extraHashed = [][]byte{pgpw_subpacket(3, u32(3600), false)}
+			o2 = lean(selfSigOpts(p, 8, 1400000000, 0x01, nil))
+			b.cert(id, nil, o2, true)
+			b.cert(id, nil, o1, true)
+			b.ids[id].alts = []pgpAlt{altOf(o1), altOf(o2)}
+			b.ids[id].alts[0].pin, b.ids[id].alts[1].pin = true, true
+			emit(tag("expired-self-signature"), b, 1)
+		}
+		// 1b. 2, 3 and 4 self-signatures on an identity and binding signatures on a subkey in every order of
+		//     their creation times (all orders for 2 and 3, a seeded sample for 4), also with equal times;
+		//     usage and lifetime differ from signature to signature: the most recent one must be shown
+		for _, times := range [][]uint32{{1, 2}, {1, 1}, {1, 2, 3}, {1, 2, 2}, {1, 1, 2}, {2, 2, 2}, {1, 2, 3, 4}, {1, 3, 3, 4}, {1, 2, 4, 4}} {
+			n := len(times)
+			var perms [][]int
+			switch n {
+			case 2:
+				perms = [][]int{{0, 1}, {1, 0}}
+			case 3:
+				for _, pm := range perms3 {
+					perms = append(perms, pm[:])
+				}
+			default:
+				for k := 0; k < 8; k++ {
+					pm := []int{0, 1, 2, 3}
+					for i := 3; i > 0; i-- {
+						j := r.Intn(i + 1)
+						pm[i], pm[j] = pm[j], pm[i]
+					}
+					perms = append(perms, pm)
+				}
+				perms = append(perms, []int{3, 0, 1, 2}, []int{2, 3, 0, 1}, []int{3, 1, 2, 0})
+			}
+			if pi > 0 && n == 3 {
+				perms = [][]int{{2, 0, 1}, {1, 2, 0}, perms3[pi][:]}
+			}
+			flagsOf := []byte{0x03, 0x23, 0x01, 0x2f}
+			subFlagsOf := []byte{0x0c, 0x04, 0x08, 0x20}
+			lifeOf := []*uint32{u32p(86400), u32p(86400 * 3650), nil, u32p(86400 * 400)}
+			for _, pm := range perms {
+				b := newB()
+				id := b.uid("several self-signatures")
+				for _, k := range pm {
+					b.cert(id, nil, lean(selfSigOpts(p, 8, 1500000000+50000000*times[k], flagsOf[k], lifeOf[k])), true)
+				}
+				sk := cv()
+				b.subs = append(b.subs, pgpSubRef{key: sk})
+				b.keyPacket(sk, true, 0)
+				for _, k := range pm {
+					bo := bindingOpts(p, 8, 1500000000+50000000*times[k], subFlagsOf[k], lifeOf[(k+1)%4])
+					bo.issuerFpr = nil
+					b.binding(0, bo, false, false, nil, true)
+				}
+				emit(tag("signatures-in-every-order-"+strconv.Itoa(n)), b, 1)
+			}
+		}
+		// 2. primary user ID flag (5.2.3.19) on the second of three identities, on all, on none
+		for v := 0; v < 3; v++ {
+			b := newB()
+			for i, n := range []string{"zed <z@example.org>", "alice <a@example.org>", "mid <m@example.org>"} {
+				id := b.uid(n)
+				o := lean(selfSigOpts(p, 8, 1500000000+uint32(i), []byte{3, 0x21, 0x0f}[i], []*uint32{nil, u32p(86400), u32p(0)}[i]))
+				o.primaryUID = v == 1 || (v == 0 && i == 1)
+				b.cert(id, nil, o, true)
+			}
+			emit(tag("primary-user-id-flag"), b, 1)
+		}
+		// 3. revoked identities
+		for v := 0; v < 5; v++ {
+			b := newB()
+			good(b)
+			id := b.uid("revoked <revoked@example.org>")
+			co := lean(selfSigOpts(p, 8, 1500000100, 0x23, u32p(86400*365)))
+			ro := sigOpts{sigType: 0x30, hid: 8, created: 1500000900, issuer: u64p(p.keyID()), extraHashed: reason(32, "no longer valid")}
+			kind := 1
+			switch v {
+			case 0: // certification, then its revocation
+				b.cert(id, nil, co, true)
+				b.cert(id, nil, ro, false)
+				b.ids[id].optional = true
+			case 1: // revocation first
+				b.cert(id, nil, ro, false)
+				b.cert(id, nil, co, true)
+				b.ids[id].optional = true
+			case 2: // revoked and certified again later
+				b.cert(id, nil, co, true)
+				b.cert(id, nil, ro, false)
+				co2 := lean(selfSigOpts(p, 8, 1500001000, 0x03, nil))
+				b.cert(id, nil, co2, true)
+				b.ids[id].alts = []pgpAlt{altOf(co), altOf(co2)}
+				b.ids[id].optional = true
+			case 3: // a "revocation" that another key made: the identity stays
+				other := newEdDSAKey(1400000000, r)
+				b.cert(id, nil, co, true)
+				b.cert(id, other, ro, false)
+			case 4: // only a revocation, no certification: never listed
+				b.cert(id, nil, ro, false)
+			}
+			b.subkey(cv(), bindingOpts(p, 8, 1500000600, 0x0c, nil), false, false, nil)
+			emit(tag("revoked-identity-"+strconv.Itoa(v)), b, kind)
+		}
+		// 4. revoked subkeys
+		for v := 0; v < 6; v++ {
+			b := newB()
+			good(b)
+			sk := cv()
+			bo := bindingOpts(p, 8, 1500000600, 0x0c, u32p(86400*365*3))
+			bo.issuerFpr = nil
+			ro := sigOpts{sigType: 0x28, hid: 8, created: 1500000900, issuer: u64p(p.keyID()), extraHashed: reason(2, "compromised")}
+			kind := 1
+			switch v {
+			case 0: // binding, then revocation
+				i := b.subkey(sk, bo, false, false, nil)
+				b.binding(i, ro, false, false, nil, false)
+				b.subs[i].optional = true
+			case 1: // revocation, then binding
+				b.subs = append(b.subs, pgpSubRef{key: sk, optional: true})
+				b.keyPacket(sk, true, 0)
+				b.binding(0, ro, false, false, nil, false)
+				b.binding(0, bo, false, false, nil, true)
+			case 2: // bound, revoked, bound again
+				i := b.subkey(sk, bo, false, false, nil)
+				b.binding(i, ro, false, false, nil, false)
+				bo2 := bindingOpts(p, 8, 1500001000, 0x04, nil)
+				bo2.issuerFpr = nil
+				b.binding(i, bo2, false, false, nil, true)
+				b.subs[i].alts = []pgpAlt{altOf(bo), altOf(bo2)}
+				b.subs[i].optional = true
+			case 3: // only a revocation: nothing but "revoked" is stated about the subkey
+				b.subs = append(b.subs, pgpSubRef{key: sk, optional: true, alts: []pgpAlt{{flags: 0, created: 1500000900, life: -1}}})
+				b.keyPacket(sk, true, 0)
+				b.binding(0, ro, false, false, nil, false)
+			case 4: // a "revocation" made by another key: a reader may reject the key, it must not drop or alter the subkey
+				other := newEdDSAKey(1400000000, r)
+				i := b.subkey(sk, bo, false, false, nil)
+				body, _ := makeSig(other, cat(p.hashInput(), sk.hashInput()), ro, r)
+				b.packet(2, body)
+				_ = i
+				kind = 4
+			case 5: // a revoked signing subkey with its cross-signature, and a second, live subkey
+				ssk := newEdDSAKey(1500000500, r)
+				so := bindingOpts(p, 8, 1500000600, 0x02, u32p(86400*30))
+				so.issuerFpr = nil
+				i := b.subkey(ssk, so, true, true, nil)
+				b.binding(i, ro, false, false, nil, false)
+				b.subs[i].optional = true
+				b.subkey(sk, bo, false, false, nil)
+			}
+			emit(tag("revoked-subkey-"+strconv.Itoa(v)), b, kind)
+		}
+		// 5. three binding signatures on one subkey, every order
+		for _, pm := range perms3 {
+			if pi > 0 && pm != perms3[pi] && pm != perms3[5-pi] {
+				continue
+			}
+			b := newB()
+			good(b)
+			sk := cv()
+			bos := []sigOpts{bindingOpts(p, 8, 1500000600, 0x0c, u32p(86400)), bindingOpts(p, 8, 1550000000, 0x04, u32p(86400*3650)), bindingOpts(p, 10, 1600000000, 0x08, nil)}
+			b.subs = append(b.subs, pgpSubRef{key: sk})
+			b.keyPacket(sk, true, 0)
+			var alts []pgpAlt
+			for _, k := range pm {
+				bos[k].issuerFpr = nil
+				b.binding(0, bos[k], false, false, nil, false)
+				alts = append(alts, altOf(bos[k]))
+			}
+			b.subs[0].alts = alts
+			emit(tag("three-binding-signatures"), b, 1)
+		}
+		// 6. direct-key signatures (0x1F): genuine and forged, with usage and lifetime of their own;
+		//    a key revocation (0x20) with a reason
+		for v := 0; v < 4; v++ {
+			b := newB()
+			other := newEdDSAKey(1400000000, r)
+			do := sigOpts{sigType: 0x1f, hid: 8, created: 1500000050, issuer: u64p(p.keyID()), flags: []byte{0x2c}, keyLife: u32p(86400 * 7)}
+			signer := p
+			if v == 1 {
+				signer = other
+			}
+			if v == 3 {
+				do = sigOpts{sigType: 0x20, hid: 8, created: 1500000950, issuer: u64p(p.keyID()), extraHashed: reason(3, "retired")}
+			}
+			body, _ := makeSig(signer, p.hashInput(), do, r)
+			if v != 2 {
+				b.packet(2, body)
+			}
+			id := b.uid("direct <direct@example.org>")
+			b.cert(id, nil, lean(selfSigOpts(p, 8, 1500000100, 0x03, u32p(86400*365))), true)
+			if v == 2 { // between the identities
+				b.packet(2, body)
+			}
+			id = b.uid("second <second@example.org>")
+			b.cert(id, nil, lean(selfSigOpts(p, 8, 1500000200, 0x01, nil)), true)
+			b.subkey(cv(), bindingOpts(p, 8, 1500000600, 0x0c, nil), false, false, nil)
+			emit(tag([]string{"direct-key-signature", "direct-key-signature-forged", "direct-key-signature-between-identities", "key-revocation-with-reason"}[v]), b, 1)
+		}
 	}
 }
